@@ -379,3 +379,29 @@ func verifC05SealedNoTLS13() {
 	vAssert(c.ServerName() == string(name), "ServerName is the outer hello's")
 	vReach("no-tls13")
 }
+
+// verifC05TwoConns: two connections handled one after the other by the same
+// process; the first (passed through) is drained only after the second hello
+// has been processed.  Each backend still receives its own client's bytes
+// (nothing is shared between connections, e.g. through recycled buffers).
+func verifC05TwoConns() {
+	mk := func(tag byte) []byte {
+		h := vHello{version: 0x0303, random: vBytes(32), sid: []byte{tag}, suites: []byte{0x13, 0x01}, comp: []byte{0},
+			exts: []vExt{vSNI([]byte{'a' + tag, '.', 'x'}), vVersions(0x0304), {51, vBytes(2)}}}
+		return h.record()
+	}
+	recA, recB := mk(1), mk(2)
+	var opts []Option
+	if vBool() {
+		opts = append(opts, WithKeys(vC08Key()))
+	}
+	a, errA := NewConn(context.Background(), newVTransport(recA), opts...)
+	b, errB := NewConn(context.Background(), newVTransport(recB), opts...)
+	vAssert(errA == nil && errB == nil, "both plain hellos pass")
+	gotB, _ := vReadAll(b, 400, len(recB))
+	gotA, _ := vReadAll(a, 400, len(recA))
+	vAssert(vBytesEq(gotA, recA), "the first connection's backend receives the first client's hello, byte for byte")
+	vAssert(vBytesEq(gotB, recB), "the second connection's backend receives the second client's hello, byte for byte")
+	vAssert(a.ServerName() == "b.x" && b.ServerName() == "c.x", "each connection reports its own server name")
+	vReach("two-conns")
+}
